@@ -721,6 +721,8 @@ error:
 	status.error = EVRPC_STATUS_ERR_UNSTARTED;
 	(*ctx->cb)(&status, ctx->request, ctx->reply, ctx->cb_arg);
 	evrpc_request_wrapper_free(ctx);
+	/* the connection is still idle: run the next queued request */
+	evrpc_pool_schedule(pool);
 	return (-1);
 }
 
@@ -766,10 +768,14 @@ evrpc_schedule_request_closure(void *arg, enum EVRPC_HOOK_RESULT hook_res)
 	return;
 
 error:
+	/* may already be armed when evhttp_make_request() failed */
+	evtimer_del(&ctx->ev_timeout);
 	memset(&status, 0, sizeof(status));
 	status.error = EVRPC_STATUS_ERR_UNSTARTED;
 	(*ctx->cb)(&status, ctx->request, ctx->reply, ctx->cb_arg);
 	evrpc_request_wrapper_free(ctx);
+	/* the connection is still idle: run the next queued request */
+	evrpc_pool_schedule(pool);
 }
 
 /* we just queue the paused request on the pool under the req object */
